@@ -320,6 +320,7 @@ def opt_one(job):
                 if isinstance(d, tuple):        # ('symlink', target): move the file aside and link to it
                     real = os.path.join(w, d[1])
                     os.makedirs(os.path.dirname(real), exist_ok=True)
+                    p = ws.patches_rel(w, p)
                     os.rename(os.path.join(w, p), real)
                     os.symlink(os.path.relpath(real, os.path.dirname(os.path.join(w, p))), os.path.join(w, p))
                 else:
